@@ -182,6 +182,11 @@ impl Default for SimDirectory {
 }
 
 impl SimDirectory {
+    /// identity of the shared state (stable while any clone is alive)
+    pub fn instance_id(&self) -> usize {
+        Arc::as_ptr(&self.inner) as usize
+    }
+
     pub fn new() -> SimDirectory {
         SimDirectory {
             inner: Arc::new(Inner {
